@@ -7,8 +7,11 @@ accepted idioms (DESIGN 3.3).  Every rewrite carries a one-line justification.
 import operator
 
 __all__ = ["V", "Const", "Sym", "App", "TupleV", "DictV", "Obj", "ClassV", "FuncV",
-           "Bound", "ModV", "ExtV", "mk_app", "show", "ty_of", "subterms", "subst",
-           "is_app", "TRUE", "FALSE", "NONE"]
+           "Bound", "ModV", "ExtV", "IterV", "mk_app", "show", "ty_of", "subterms", "subst",
+           "is_app", "TRUE", "FALSE", "NONE", "canon_id"]
+
+
+_INTERN = {}
 
 
 class V(object):
@@ -27,8 +30,15 @@ class V(object):
         return self._hash
 
     def _setkey(self, k):
-        self._key = k
-        self._hash = hash(k)
+        # keys are interned: a term's key is a small integer standing for its structure (children
+        # appear in k by their own integers), so equality, hashing and ordering cost O(1) however
+        # deeply terms share subterms (nested tuple keys made them exponential in the sharing depth)
+        i = _INTERN.get(k)
+        if i is None:
+            i = len(_INTERN) + 1
+            _INTERN[k] = i
+        self._key = i
+        self._hash = i
 
 
 class Const(V):
@@ -170,6 +180,19 @@ class FuncV(V):
         return "func " + self.qual
 
 
+class IterV(V):
+    """A single-pass iterator object (zip/map/enumerate/reversed/generator): the items still to be
+    delivered live in State.heap[oid]['items']; consuming it empties that field."""
+    __slots__ = ("oid",)
+
+    def __init__(self, oid):
+        self.oid = oid
+        self._setkey(("I", oid))
+
+    def __repr__(self):
+        return "<iterator#%d>" % self.oid
+
+
 class Bound(V):
     __slots__ = ("func", "recv")
 
@@ -239,6 +262,8 @@ def ty_of(t):
     if isinstance(t, DictV):
         return "dict"
     if isinstance(t, App):
+        if t.f == "Mod" and len(t.args) == 2 and ty_of(t.args[0]) == "int" and ty_of(t.args[1]) == "int":
+            return "int"
         if t.f in ("Add", "Sub", "Mult", "FloorDiv", "LShift", "RShift", "BitAnd", "BitOr",
                    "BitXor", "USub", "Pow"):
             tys = [ty_of(a) for a in t.args]
@@ -330,6 +355,10 @@ def mk_app(f, args=(), kw=()):
             return a
         if f == "Mult" and isinstance(a, Const) and a.v == 1 and not isinstance(a.v, bool) and ty_of(b) == "int":
             return b
+        if f in ("BitOr", "BitXor", "LShift", "RShift") and isinstance(b, Const) and b.v == 0 and not isinstance(b.v, bool) and ty_of(a) == "int":
+            return a
+        if f in ("BitOr", "BitXor") and isinstance(a, Const) and a.v == 0 and not isinstance(a.v, bool) and ty_of(b) == "int":
+            return b
         # bytes/list concatenation -> cat / list
         if f == "Add":
             ta, tb = ty_of(a), ty_of(b)
@@ -359,6 +388,22 @@ def mk_app(f, args=(), kw=()):
                 return Const(f != "Eq")
             if a._key > b._key:
                 args = (b, a)
+        if f in ("Lt", "LtE", "Gt", "GtE"):
+            # range facts of x % m for a positive constant m: 0 <= x % m < m
+            lo, hi, strict = (a, b, f == "Lt") if f in ("Lt", "LtE") else (b, a, f == "Gt")
+            def _modpos(t):
+                return is_app(t, "Mod") and isinstance(t.args[1], Const) and isinstance(t.args[1].v, int) \
+                    and not isinstance(t.args[1].v, bool) and t.args[1].v > 0 and ty_of(t.args[0]) == "int"
+            if isinstance(lo, Const) and isinstance(lo.v, int) and not isinstance(lo.v, bool) and _modpos(hi):
+                if lo.v < 0 or (lo.v == 0 and not strict):
+                    return Const(True)                 # c <= x % m for c <= 0
+                if lo.v >= hi.args[1].v:
+                    return Const(False)
+            if isinstance(hi, Const) and isinstance(hi.v, int) and not isinstance(hi.v, bool) and _modpos(lo):
+                if hi.v >= lo.args[1].v or (hi.v == lo.args[1].v - 1 and not strict):
+                    return Const(True)                 # x % m < c for c >= m
+                if hi.v < 0 or (hi.v == 0 and strict):
+                    return Const(False)
         if f == "Gt":
             return App("Lt", (b, a))                  # one spelling per ordering: a > b is b < a
         if f == "GtE":
@@ -629,6 +674,40 @@ def mk_app(f, args=(), kw=()):
     if f in ("list", "tuple", "bytes", "bytearray", "sorted", "set", "frozenset") and n == 1 and not kw and is_app(args[0], "iter") \
             and len(args[0].args) == 1:
         return mk_app(f, (args[0].args[0],))            # f(iter(x)) == f(x)
+    if f == "zip" and n >= 1 and not kw and all(isinstance(a, TupleV) for a in args):
+        k = min(len(a.items) for a in args)
+        return TupleV([TupleV([a.items[i] for a in args], "tuple") for i in range(k)], "list")
+    if f == "enumerate" and n in (1, 2) and isinstance(args[0], TupleV) and (n == 1 or isinstance(args[1], Const)) \
+            and (not kw or (len(kw) == 1 and kw[0][0] == "start" and isinstance(kw[0][1], Const))):
+        start = args[1].v if n == 2 else (kw[0][1].v if kw else 0)
+        if isinstance(start, int):
+            return TupleV([TupleV([Const(start + i), x], "tuple") for i, x in enumerate(args[0].items)], "list")
+    if f == "reversed" and n == 1 and not kw and isinstance(args[0], TupleV):
+        return TupleV(list(args[0].items)[::-1], "list")
+    if f == "range" and 1 <= n <= 3 and not kw and all(isinstance(a, Const) and isinstance(a.v, int) for a in args):
+        try:
+            r = range(*[a.v for a in args])
+            if len(r) <= 256:
+                return TupleV([Const(i) for i in r], "list")
+        except Exception:
+            pass
+    if f in ("any", "all") and n == 1 and not kw and isinstance(args[0], TupleV):
+        acc = None
+        for x in reversed(args[0].items):
+            x = x if ty_of(x) == "bool" else mk_app("bool", (x,))
+            acc = x if acc is None else mk_app("Or" if f == "any" else "And", (x, acc))
+        return Const(f == "all") if acc is None else acc     # any([a, b]) == bool(a) or bool(b)
+    if f in ("bytes", "bytearray") and n == 1 and not kw and isinstance(args[0], TupleV) \
+            and all(isinstance(i, Const) and isinstance(i.v, int) and not isinstance(i.v, bool) and 0 <= i.v < 256 for i in args[0].items):
+        return Const(bytes(i.v for i in args[0].items)) if f == "bytes" else App(f, (Const(bytes(i.v for i in args[0].items)),))
+    if f == "dict" and n == 1 and not kw and isinstance(args[0], TupleV) and all(isinstance(i, TupleV) and len(i.items) == 2
+                                                                                  and isinstance(i.items[0], Const) for i in args[0].items):
+        try:
+            return DictV([(i.items[0].v, i.items[1]) for i in args[0].items])
+        except TypeError:
+            pass
+    if f == "dict" and n == 1 and not kw and isinstance(args[0], DictV):
+        return args[0]
     if f == "divmod" and n == 2 and not kw and all(ty_of(a) in ("int", None) for a in args):
         return TupleV([mk_app("FloorDiv", args), mk_app("Mod", args)], "tuple")    # divmod(a, b) == (a // b, a % b)
     if f == "len" and n == 1 and is_app(args[0], "call") and len(args[0].args) == 2 and isinstance(args[0].args[0], Sym) \
@@ -773,6 +852,33 @@ def _const_val(v):
 
 # ----------------------------------------------------------------------------
 # traversal helpers
+
+def canon_id(t, ren, table, memo):
+    """Identity of a term up to a renaming of heap object ids (ren: oid -> canonical number):
+    a small integer from `table` (shared between the terms to be compared)."""
+    k = t._key
+    if k in memo:
+        return memo[k]
+    if isinstance(t, (Obj, IterV)):
+        c = ("O" if isinstance(t, Obj) else "I", ren.get(t.oid, t.oid))
+    elif isinstance(t, App):
+        c = ("A", t.f, tuple(canon_id(a, ren, table, memo) for a in t.args),
+             tuple((kk, canon_id(v, ren, table, memo)) for kk, v in t.kw))
+    elif isinstance(t, TupleV):
+        c = ("T", t.kind, tuple(canon_id(a, ren, table, memo) for a in t.items))
+    elif isinstance(t, DictV):
+        c = ("D", tuple(sorted((repr(kk), canon_id(v, ren, table, memo)) for kk, v in t.items.items())))
+    elif isinstance(t, Bound):
+        c = ("B", canon_id(t.func, ren, table, memo), canon_id(t.recv, ren, table, memo))
+    else:
+        c = ("X", k)
+    i = table.get(c)
+    if i is None:
+        i = len(table) + 1
+        table[c] = i
+    memo[k] = i
+    return i
+
 
 def subterms(t, seen=None):
     """All subterms of t (DAG traversal, each once)."""
